@@ -224,7 +224,7 @@ func (s *Session) startDelivery(ctx context.Context, from string, opts smtp.Mail
 	// used.
 	if !opts.UTF8 {
 		for _, ch := range from {
-			if ch > 128 {
+			if ch >= 128 {
 				return "", &exterrors.SMTPError{
 					Code:         550,
 					EnhancedCode: exterrors.EnhancedCode{5, 6, 7},
